@@ -8,6 +8,7 @@ import (
 	"math/rand"
 	"os"
 	"path/filepath"
+	"strconv"
 	"strings"
 	"time"
 )
@@ -306,6 +307,11 @@ func runC03(w *World) {
 					p = append(p, hookCmd(r, g))
 				case x < 5:
 					p = appendScript(p, r, scriptCmd(r, g))
+				case x == 5 && j%3 == 0:
+					// an administrator (or a reconnecting follower) asks for the checksum of a stretch
+					// of the log: a read of the file that the history must not notice
+					pos := r.Intn(60)
+					p = append(p, Cmd{Args: []string{"AOFMD5", strconv.Itoa(pos), strconv.Itoa(1 + r.Intn(40))}, Tag: "aux"})
 				default:
 					c := g.cmd(r)
 					for withShrink && (strings.HasPrefix(strings.ToUpper(c.Args[0]), "RENAME") || strings.ToUpper(c.Args[0]) == "JDEL") {
